@@ -57,7 +57,17 @@ def run(desc, shots, seed=11):
     with warnings.catch_warnings():
         warnings.simplefilter("ignore")
         program, sim = aprogs.build(pq, desc, seed_sequence=seed)
-        return sim.execute(program, shots=shots)
+        try:
+            return sim.execute(program, shots=shots)
+        except PiquassoException:
+            raise
+        except Exception as e:  # noqa: BLE001 — a valid program must not crash
+            import traceback
+
+            tb = traceback.extract_tb(e.__traceback__)[-1]
+            raise Violation(
+                f"C03:crash:{desc['sim']}:{type(e).__name__}:{tb.filename.split('/')[-1]}:{tb.name}",
+                f"executing with shots={shots} raised {type(e).__name__}: {str(e)[:200]}")
 
 
 def n_measured_quantities(desc, sim):
@@ -158,8 +168,7 @@ def exact_case(draw):
                                         imperfect=True))
     # PF final measurement must be a particle-number measurement for shots=None
     for s in desc["steps"]:
-        if s["k"] == "measure" and s["m"] not in ("ParticleNumberMeasurement",
-                                                  "ImperfectParticleNumberMeasurement"):
+        if s["k"] == "measure" and s["m"] not in aprogs.SHOTS_NONE_OK[sim]:
             s["m"] = "ParticleNumberMeasurement"
             s["p"] = {}
     split_seed = draw(st.integers(0, 2**16))
@@ -171,6 +180,41 @@ def outcome_weights(res):
     for b in res.branches:
         k = tuple(int(x) for x in b.outcome)
         out[k] = out.get(k, 0.0) + float(b.frequency)
+    return out
+
+
+def pf_reference_weights(desc):
+    """Exact joint outcome weights from the pure Fock simulator; imperfect detectors (which
+    it cannot run with shots=None) are applied by the harness: P[detected, actual] per
+    measured mode.  Returns None when not computable (imperfect detector mid-circuit)."""
+    import itertools
+
+    steps, mats = [], []
+    for i, s in enumerate(desc["steps"]):
+        if s["k"] == "measure" and s["m"] == "ImperfectParticleNumberMeasurement":
+            if i != len(desc["steps"]) - 1:
+                return None
+            mats.append(aprogs.detector_matrix(s["p"]["dseed"], s["p"]["rows"], s["p"]["cols"]))
+            steps.append({**s, "m": "ParticleNumberMeasurement", "p": {}})
+        else:
+            steps.append(s)
+    w = outcome_weights(run({**desc, "sim": "PF", "steps": steps}, None))
+    if not mats:
+        return w
+    mat = mats[0]
+    k = len(desc["steps"][-1]["modes"])
+    out = {}
+    for outcome, p in w.items():
+        head, tail = outcome[:-k], outcome[-k:]
+        if any(n >= mat.shape[1] for n in tail):
+            return None
+        opts = [[(dd, mat[dd, n]) for dd in range(mat.shape[0]) if mat[dd, n] > 0] for n in tail]
+        for combo in itertools.product(*opts):
+            q = p
+            for _, x in combo:
+                q *= x
+            key = head + tuple(dd for dd, _ in combo)
+            out[key] = out.get(key, 0.0) + q
     return out
 
 
@@ -248,14 +292,20 @@ def prop_exact(case, ctx):
     total = sum(w.values())
     if sim == "P" and nmeas >= 2:
         # known finding: weights of later measurements are double counted
-        pf = run({**desc, "sim": "PF"}, None)
-        wref = outcome_weights(pf)
-        bad = max(abs(w.get(k, 0.0) - v) for k, v in wref.items())
-        if bad > TOL:
+        wref = pf_reference_weights(desc)
+        if wref is None:
+            ctx.count("reference_not_computable")
+            wref = {}
+        bad = max([abs(w.get(k, 0.0) - v) for k, v in wref.items()] + [0.0])
+        if not wref and not aprogs.has_postselect(desc):
+            bad = abs(total - 1.0)  # no reference: the weights must at least sum to one
+        if bad > 1e-8:
             raise Violation("C03:exact:P:sequential-measurements:joint-weights",
                             f"passive simulator, {nmeas} successive measurements, shots=None: "
                             f"weights sum to {total:.6f}; max deviation from the exact joint "
                             f"distribution {bad:.3e}")
+    if sim == "P" and nmeas >= 2:
+        return  # region of the known finding: nothing else is asserted behind it
     for k, v in w.items():
         if not (v >= -1e-12 and v <= 1 + TOL):
             raise Violation(f"C03:exact:{sim}:weight-range", f"weight {v!r} for outcome {k}")
@@ -275,13 +325,14 @@ def prop_exact(case, ctx):
             raise Violation(f"C03:exact:{sim}:outcome-length", f"{k} vs {want} measured modes")
     # cross-simulator agreement of the joint distribution (P vs PF), single measurement
     if sim == "P" and nmeas == 1 and not has_ps:
-        pf = run({**desc, "sim": "PF"}, None)
-        wref = outcome_weights(pf)
-        keys = set(w) | set(wref)
-        bad = max(abs(w.get(k, 0.0) - wref.get(k, 0.0)) for k in keys)
-        if bad > TOL:
-            raise Violation("C03:exact:P-vs-PF:joint-distribution", f"max deviation {bad:.3e}")
-        ctx.count("P_vs_PF_compared")
+        wref = pf_reference_weights(desc)
+        if wref is not None:
+            keys = set(w) | set(wref)
+            bad = max(abs(w.get(k, 0.0) - wref.get(k, 0.0)) for k in keys)
+            if bad > 1e-8:  # detector probabilities are rounded to rationals by the library
+                raise Violation("C03:exact:P-vs-PF:joint-distribution",
+                                f"max deviation {bad:.3e}")
+            ctx.count("P_vs_PF_compared")
     # sequential == joint (metamorphic)
     if not adaptive and sim == "PF":
         split, changed = split_measurements(desc, case["split"])
